@@ -427,7 +427,7 @@ func newRun(eng *Engine, ts *TermStore, sol *Solver, h *ssa.Function, prefix []i
 		eng: eng, ts: ts, sol: sol, harness: h, hname: h.Name(),
 		prefix:  append([]int(nil), prefix...),
 		globals: map[*ssa.Global]*Object{}, rtypes: map[types.Type]*Object{}, strLits: map[string]*Object{},
-		reached: map[string]bool{}, unwind: unwind, maxDepth: 200, allocMax: 4096,
+		reached: map[string]bool{}, unwind: unwind, maxDepth: 200, allocMax: 64,
 		locks: map[lockKey]int{}, poolItems: map[lockKey][]Value{}, dates: map[[2]int]*dateFields{},
 		flags: map[string]int64{}, fnSeen: map[string]bool{}, fconv: map[[2]int]*Term{},
 	}
@@ -534,13 +534,24 @@ func buildOverlay(repo, hdir string) (map[string][]byte, error) {
 			}
 			ov[filepath.Join(repo, dst, filepath.Base(f))] = data
 		}
-		// shared API file, instantiated per package
+		// shared files, instantiated per package
 		if len(files) > 0 {
-			api, err := os.ReadFile(filepath.Join(hdir, "common", "zz_verif_api.go.tmpl"))
-			if err != nil {
-				return nil, err
+			tmpls, _ := filepath.Glob(filepath.Join(hdir, "common", "*.go.tmpl"))
+			for _, tf := range tmpls {
+				src, err := os.ReadFile(tf)
+				if err != nil {
+					return nil, err
+				}
+				text := strings.ReplaceAll(string(src), "PKGNAME", pkg)
+				if pkg == "avro" {
+					text = strings.ReplaceAll(text, "AVRO.", "")
+					text = strings.ReplaceAll(text, "IMPORTS", "")
+				} else {
+					text = strings.ReplaceAll(text, "AVRO.", "avro.")
+					text = strings.ReplaceAll(text, "IMPORTS", "import \"github.com/philpearl/avro\"")
+				}
+				ov[filepath.Join(repo, dst, strings.TrimSuffix(filepath.Base(tf), ".tmpl"))] = []byte(text)
 			}
-			ov[filepath.Join(repo, dst, "zz_verif_api.go")] = []byte(strings.ReplaceAll(string(api), "PKGNAME", pkg))
 		}
 	}
 	return ov, nil
